@@ -21,6 +21,8 @@ import (
 	"sync/atomic"
 	"time"
 
+	"github.com/blevesearch/bleve/v2"
+	"github.com/blevesearch/bleve/v2/index/upsidedown"
 	_ "github.com/blevesearch/bleve/v2/index/upsidedown/store/boltdb"
 	_ "github.com/blevesearch/bleve/v2/index/upsidedown/store/goleveldb"
 	_ "github.com/blevesearch/bleve/v2/index/upsidedown/store/gtreap"
@@ -29,7 +31,9 @@ import (
 	"github.com/blevesearch/bleve/v2/registry"
 	store "github.com/blevesearch/upsidedown_store_api"
 
+	"verif/gen"
 	"verif/mc"
+	"verif/ref"
 )
 
 // ---------------------------------------------------------------------------------------------
@@ -326,7 +330,9 @@ func (o obs) kindName() string {
 	return n
 }
 
-var obsList = func() []obs {
+// buildObs lists the observations made on every reader. full = every (start,end) pair with every
+// Seek; otherwise the degenerate ranges (start ≥ end, always empty) are only iterated plainly.
+func buildObs(full bool) []obs {
 	var l []obs
 	for _, k := range keys {
 		l = append(l, obs{kind: 'g', a: k})
@@ -353,11 +359,15 @@ var obsList = func() []obs {
 			if en == "\x00nil" {
 				o.b, o.bNil = "", true
 			}
+			if !full && !o.aNil && !o.bNil && o.a >= o.b {
+				l = append(l, o)
+				continue
+			}
 			withSeeks(o)
 		}
 	}
 	return l
-}()
+}
 
 // expect is the reference answer of an observation on a model content.
 func expect(o obs, c content) []kv {
@@ -648,6 +658,7 @@ type flight struct {
 
 type checker struct {
 	r        *mc.Run
+	obsList  []obs
 	root     string
 	seq      atomic.Int64
 	mu       sync.Mutex
@@ -858,7 +869,7 @@ func (c *checker) exec(sc storeCfg, path []op) (res execResult) {
 		verify := func(rd store.KVReader, tag string, view []op, snap content) {
 			res.nReaders++
 			held := tag != "fresh"
-			for _, o := range obsList {
+			for _, o := range c.obsList {
 				want := expect(o, snap)
 				var got []kv
 				var special string
@@ -975,10 +986,11 @@ func (c *checker) exec(sc storeCfg, path []op) (res execResult) {
 // search
 
 type scenario struct {
-	name     string
-	alphabet [][]entry
-	depth    int
-	maxOpen  int
+	name         string
+	alphabet     [][]entry
+	depth        int
+	wrapperDepth int // depth for the metrics wrapper (pure delegation; its inner stores are searched to the full depth)
+	maxOpen      int
 }
 
 func (c *checker) bfs(sc storeCfg, sn scenario) {
@@ -994,7 +1006,11 @@ func (c *checker) bfs(sc storeCfg, sn scenario) {
 	if sc.disk {
 		workers = 8
 	}
-	for level := 1; level <= sn.depth && len(frontier) > 0; level++ {
+	depth := sn.depth
+	if sc.ctor == "metrics" {
+		depth = sn.wrapperDepth
+	}
+	for level := 1; level <= depth && len(frontier) > 0; level++ {
 		type tr struct {
 			from *state
 			o    op
@@ -1055,12 +1071,146 @@ func (c *checker) bfs(sc storeCfg, sn scenario) {
 		}
 		r.Count(fmt.Sprintf("transitions:%s:%s", sn.name, sc.name), int64(done))
 		if done < len(trs) {
-			r.Cap(fmt.Sprintf("%s/%s: level %d of %d incomplete (%d of %d transitions)", sc.name, sn.name, level, sn.depth, done, len(trs)))
+			r.Cap(fmt.Sprintf("%s/%s: level %d of %d incomplete (%d of %d transitions)", sc.name, sn.name, level, depth, done, len(trs)))
 			return
 		}
 		r.Note(fmt.Sprintf("completed:%s:%s", sn.name, sc.name), fmt.Sprintf("depth %d", level))
 		frontier = next
 	}
+}
+
+// ---------------------------------------------------------------------------------------------
+// supplementary: the upsidedown index over moss against the same index over gtreap
+
+// indexOverMoss builds the same document history (every document of the shared alphabet in its
+// own batch, then deletions in later batches, optionally one re-index) on upsidedown/moss and
+// on upsidedown/gtreap and requires identical hit sets for the whole query family, and that no
+// deleted document is ever returned. It shows whether the moss deviations reported above reach
+// search results.
+func (c *checker) indexOverMoss() {
+	r := c.r
+	ls := gen.Leaves()
+	qs := append([]*ref.Q{}, ls...)
+	red := gen.Reduced(ls, mc.Pick(r, 5, 2))
+	for _, a := range red {
+		for _, b := range red {
+			qs = append(qs,
+				&ref.Q{Kind: "conj", Subs: []*ref.Q{a, b}},
+				&ref.Q{Kind: "disj", Subs: []*ref.Q{a, b}, DMin: 1},
+				&ref.Q{Kind: "boolean", Must: []*ref.Q{a}, MustNot: []*ref.Q{b}},
+				&ref.Q{Kind: "boolean", Must: []*ref.Q{a}, Filter: []*ref.Q{b}})
+		}
+	}
+	n := len(gen.DocAlphabet)
+	type script struct {
+		del     []int
+		reindex bool
+	}
+	scripts := []script{{del: []int{2, 4, 7}}, {del: []int{2, 4, 7}, reindex: true}, {del: []int{0}}, {del: []int{n - 1, 0}}}
+	if !r.Quick() {
+		for _, sub := range gen.Subsets(n, 2) {
+			scripts = append(scripts, script{del: sub}, script{del: sub, reindex: true})
+		}
+		all := script{}
+		for i := 0; i < n; i++ {
+			all.del = append(all.del, i)
+		}
+		scripts = append(scripts, all)
+	}
+	r.Note("index_over_moss", fmt.Sprintf("%d delete scripts × %d queries", len(scripts), len(qs)))
+	r.ParFor(len(scripts), 0, func(si int) {
+		sc := scripts[si]
+		build := func(kv string) bleve.Index {
+			idx, err := bleve.NewUsing("", gen.TextMapping(), upsidedown.Name, kv, nil)
+			if err != nil {
+				panic(err)
+			}
+			for i, d := range gen.DocAlphabet {
+				if err := idx.Index(gen.DocID(i), d); err != nil {
+					panic(err)
+				}
+			}
+			for _, i := range sc.del {
+				if err := idx.Delete(gen.DocID(i)); err != nil {
+					panic(err)
+				}
+			}
+			if sc.reindex {
+				i := sc.del[len(sc.del)-1]
+				if err := idx.Index(gen.DocID(i), gen.DocAlphabet[i]); err != nil {
+					panic(err)
+				}
+			}
+			return idx
+		}
+		deleted := map[string]bool{}
+		for k, i := range sc.del {
+			if !(sc.reindex && k == len(sc.del)-1) {
+				deleted[gen.DocID(i)] = true
+			}
+		}
+		rep := func(q *ref.Q) map[string]any {
+			return map[string]any{"index": "upsidedown", "kvstore": "moss", "history": fmt.Sprintf("index d0..d%d one per batch; delete %v one per batch; reindex last deleted: %v", n-1, sc.del, sc.reindex), "query": q.String()}
+		}
+		var im, ig bleve.Index
+		if pv, st := mc.Try(func() { im, ig = build("moss"), build("gtreap") }); pv != nil {
+			r.Violation("index-over-moss:build-panics", fmt.Sprintf("%v: %v @ %s", rep(&ref.Q{Kind: "all"}), pv, mc.TrimStack(st)), rep(&ref.Q{Kind: "all"}))
+			return
+		}
+		defer im.Close()
+		defer ig.Close()
+		for _, q := range qs {
+			ids := func(idx bleve.Index) (map[string]bool, uint64, error) {
+				req := bleve.NewSearchRequest(ref.ToBleve(q))
+				req.Size = n + 3
+				res, err := idx.Search(req)
+				if err != nil {
+					return nil, 0, err
+				}
+				got := map[string]bool{}
+				for _, h := range res.Hits {
+					got[h.ID] = true
+				}
+				return got, res.Total, nil
+			}
+			var gm, gg map[string]bool
+			var tm, tg uint64
+			var em, eg error
+			pv, st := mc.Try(func() { gm, tm, em = ids(im); gg, tg, eg = ids(ig) })
+			r.Eval(1)
+			if pv != nil {
+				r.Violation("index-over-moss:search-panics:"+q.Kind, fmt.Sprintf("%v: %v @ %s", rep(q), pv, mc.TrimStack(st)), rep(q))
+				continue
+			}
+			if (em != nil) != (eg != nil) {
+				r.Violation("index-over-moss:error-differs-from-gtreap:"+q.Kind, fmt.Sprintf("%v: moss err=%v gtreap err=%v", rep(q), em, eg), rep(q))
+				continue
+			}
+			if em != nil {
+				r.Outcome("index|" + q.Kind + "|error")
+				continue
+			}
+			for id := range gm {
+				if deleted[id] {
+					r.Violation("index-over-moss:deleted-document-returned", fmt.Sprintf("%v: deleted %s among hits %v", rep(q), id, sortedKeys(gm)), rep(q))
+				}
+			}
+			if strings.Join(sortedKeys(gm), ",") != strings.Join(sortedKeys(gg), ",") || tm != tg {
+				r.Violation("index-over-moss:hits-differ-from-gtreap:"+q.Kind, fmt.Sprintf("%v: moss %v (total %d), gtreap %v (total %d)", rep(q), sortedKeys(gm), tm, sortedKeys(gg), tg), rep(q))
+			}
+			r.Outcome(fmt.Sprintf("index|%s|%d", q.Kind, len(gm)))
+		}
+		r.Count("index_over_moss_scripts", 1)
+	})
+}
+
+func sortedKeys(m map[string]bool) []string {
+	out := make([]string, 0, len(m))
+	for k := range m {
+		out = append(out, k)
+	}
+	sort.Strings(out)
+	return out
 }
 
 func Run(r *mc.Run) {
@@ -1075,25 +1225,41 @@ func Run(r *mc.Run) {
 	defer os.RemoveAll(c.root)
 	go c.monitor()
 
-	wide := scenario{name: "wide", alphabet: wideAlphabet(mc.Pick(r, 0, 2)), depth: mc.Pick(r, 1, 2), maxOpen: 1}
-	deep := scenario{name: "deep", alphabet: deepAlphabet(), depth: mc.Pick(r, 3, 4), maxOpen: 2}
+	c.obsList = buildObs(!r.Quick())
+	var scenarios []scenario
+	if r.Quick() {
+		scenarios = []scenario{
+			{name: "wide1", alphabet: wideAlphabet(0), depth: 1, wrapperDepth: 1, maxOpen: 1},
+			{name: "deep", alphabet: deepAlphabet(), depth: 3, wrapperDepth: 2, maxOpen: 2},
+		}
+	} else {
+		scenarios = []scenario{
+			{name: "wide1", alphabet: wideAlphabet(2), depth: 1, wrapperDepth: 1, maxOpen: 1},
+			{name: "wide2", alphabet: wideAlphabet(0), depth: 2, wrapperDepth: 2, maxOpen: 1},
+			{name: "deep", alphabet: deepAlphabet(), depth: 4, wrapperDepth: 3, maxOpen: 2},
+		}
+	}
 
-	r.Rule("E1 breadth-first search over operation sequences on each real store (boltdb, goleveldb, gtreap, moss, metrics over gtreap and over boltdb): operations = execute a batch of ≤ 2 entries from {Set, Delete, Merge(+1)} over keys {a, a\\x00, a\\xff, a\\xffb, b, \\xff} and values {\"\",1,2}, open a reader, close a reader; every transition replays its path on a fresh store instance and then checks, on a fresh reader and on every still-open reader (against the model as of its creation), Get of every key and an absent one, MultiGet, PrefixIterator for 5 prefixes and RangeIterator for all 49 (start,end) pairs incl. nil bounds, each plain and after Seek to every key, as exact key/value sequences; states are merged on (per key: never written / deleted / value; multiset of open snapshot contents); an outcome is (live keys, open readers, readers behind later writes)")
+	r.Rule("E1 breadth-first search over operation sequences on each real store (boltdb, goleveldb, gtreap, moss, metrics over gtreap and over boltdb): operations = execute a batch of ≤ 2 entries from {Set, Delete, Merge(+1)} over keys {a, a\\x00, a\\xff, a\\xffb, b, \\xff} and values {\"\",1,2}, open a reader, close a reader; every transition replays its path on a fresh store instance and then checks, on a fresh reader and on every still-open reader (against the model as of its creation), Get of every key and an absent one, MultiGet, PrefixIterator for 5 prefixes and RangeIterator for all 49 (start,end) pairs incl. nil bounds, each plain and after Seek to every key, as exact key/value sequences; states are merged on (per key: never written / deleted / value; multiset of open snapshot contents). Searches per store: wide1 = every batch of the alphabet from the empty store (quick: pairs thinned), wide2 (thorough) = depth 2 over the thinned pair alphabet, deep = depth 3 → 4 over a 21-batch alphabet that makes histories collide on the same keys, with up to 2 open readers. An outcome is (live keys, open readers, readers behind later writes)")
 	r.Assume("boltdb is opened with the adapter's initialMmapSize option = 16 MiB (a bbolt write that must grow the mmap waits for open read transactions; isolation, not progress, is claimed)",
+		"goleveldb is opened with the adapter's write_buffer_size option = 64 KiB (the default 4 MiB buffer is allocated and zeroed on every open)",
 		"inside one batch a key has either merges or sets/deletes, never both (adapter-defined, unused by upsidedown)",
 		"Seek is called once, directly after the iterator is created; Seek before the range start is expected to clamp to the start",
-		"moss is used in memory (no lower-level store); its background merger is not scheduled by the check")
-	r.Note("alphabet_wide", len(wide.alphabet))
-	r.Note("alphabet_deep", len(deep.alphabet))
-	r.Note("depth_wide", wide.depth)
-	r.Note("depth_deep", deep.depth)
-	r.Note("observations_per_reader", len(obsList))
-	r.Sample(map[string]any{"store": "moss", "history": pathString([]op{{Kind: 'b', B: []entry{s("a", "1")}}, {Kind: 'o'}, {Kind: 'b', B: []entry{d("a"), s("b", "2")}}}), "checked": "fresh reader = {b=2}; held#0 = {a=1}; 388 observations each"})
-	r.Sample(map[string]any{"observation": obsList[len(obsList)-9].String(), "on": "{a=1, a\\xff=, b=2}", "want": kvString(expect(obsList[len(obsList)-9], emptyContent().apply([]entry{s("a", "1"), s("a\xff", "")}).apply([]entry{s("b", "2")})))})
-	r.Sample(map[string]any{"wide_alphabet_example": op{Kind: 'b', B: wide.alphabet[len(wide.alphabet)/2]}.String(), "deep_alphabet_example": op{Kind: 'b', B: deep.alphabet[14]}.String()})
+		"moss is used in memory (no lower-level store) with the adapter's default collection options",
+		"the metrics wrapper is searched one level less deep than the stores it wraps (it only delegates)",
+		"merge operator: decimal counter (FullMerge and PartialMerge both supported)",
+		"supplementary index-level pass: upsidedown over moss is compared with upsidedown over gtreap (same history, same queries), not with the reference query evaluator — query semantics are C02's subject")
+	for _, sn := range scenarios {
+		r.Note("alphabet:"+sn.name, fmt.Sprintf("%d batches + open/close reader, depth %d (metrics wrapper %d), ≤ %d open readers", len(sn.alphabet), sn.depth, sn.wrapperDepth, sn.maxOpen))
+	}
+	r.Note("observations_per_reader", len(c.obsList))
+	r.Sample(map[string]any{"store": "moss", "history": pathString([]op{{Kind: 'b', B: []entry{s("a", "1")}}, {Kind: 'o'}, {Kind: 'b', B: []entry{d("a"), s("b", "2")}}}), "checked": fmt.Sprintf("fresh reader against {b=2}; held#0 against {a=1}; %d observations each", len(c.obsList))})
+	so := obs{kind: 'r', a: "a\x00", b: "b", hasSeek: true, seek: "a"}
+	r.Sample(map[string]any{"observation": so.String(), "on": "{a=1, a\\xff=\"\", b=2}", "want": kvString(expect(so, emptyContent().apply([]entry{s("a", "1"), s("a\xff", "")}).apply([]entry{s("b", "2")})))})
+	r.Sample(map[string]any{"wide_alphabet_example": op{Kind: 'b', B: scenarios[0].alphabet[len(scenarios[0].alphabet)/2]}.String(), "deep_alphabet_example": op{Kind: 'b', B: deepAlphabet()[14]}.String()})
 
 	only := os.Getenv("VERIF_C15_STORE")
-	for _, sn := range []scenario{wide, deep} {
+	for _, sn := range scenarios {
 		for _, sc := range stores {
 			if only != "" && only != sc.name {
 				continue
@@ -1104,5 +1270,8 @@ func Run(r *mc.Run) {
 			}
 			c.bfs(sc, sn)
 		}
+	}
+	if only == "" || only == "index" {
+		c.indexOverMoss()
 	}
 }
